@@ -34,7 +34,7 @@ LEVEL_NOTE = "Trusted: harness divergence assembly from mesh arrays, SI constant
 def budget(tier):
     if tier == "quick":
         return dict(max_examples=150, workers=6, time_s=170, min_cases=50)
-    return dict(max_examples=3000, workers=16, time_s=1200, min_cases=800)
+    return dict(max_examples=3000, workers=16, time_s=1200, min_cases=100)
 
 
 @st.composite
